@@ -166,7 +166,7 @@ Proof. exact gen_gdevice_hess. Qed.
         f''*ones((n,n)), X2D / Poly2D / Poly2DOffset a diagonal ---- *)
 From DK.Model Require Import FnOps.
 From DK.Gen Require Import Functions.
-From DK.Proofs Require Import GenFunctions.
+From DK.Proofs Require Import GenFunctions GenFunctionsHess.
 Theorem C14_source_function_combinators : forall (fs : list (fn R)) (g : fn R) pl ph xl xh qs cs offs (x : list R),
   SumFunction_hess (map fobj_of fs) x = fhess (FSum fs) x /\
   ReflectedFunction_hess (fobj_of g) x = fhess (FReflect g) x /\
@@ -177,10 +177,14 @@ Theorem C14_source_function_combinators : forall (fs : list (fn R)) (g : fn R) p
   NullFunction_hess x = fhess FNull x.
 Proof.
   intros fs g pl ph xl xh qs cs offs x.
-  pose proof (gen_sum fs x) as [_ [_ S]]. pose proof (gen_reflect g x) as [_ [_ Rf]]. pose proof (gen_innersum pl ph xl xh x) as [_ [_ I]].
-  pose proof (gen_x2d qs x) as [_ [_ X]]. pose proof (gen_poly2d cs x) as [_ [_ P]]. pose proof (gen_poly2doffset cs offs x) as [_ [_ O]].
-  pose proof (gen_null x) as [_ [_ N]]. repeat split; assumption.
+  split; [apply gen_sum_hess|]. split; [apply gen_reflect_hess|]. split; [apply gen_innersum_hess|]. split; [apply gen_x2d_hess|].
+  split; [apply gen_poly2d_hess|]. split; [apply gen_poly2doffset_hess|apply gen_null_hess].
 Qed.
+(* ADevice.hess regenerated from adevice.py over an abstract function object: f.hess(s), whatever the price *)
+Theorem C14_source_adevice_hess : forall n bnd cb (g : fn R) ucs (s p : list R),
+  ADevice_hess (fobj_of g) s p = leaf_hess (Build_leafdev n bnd cb (KA g ucs)) s.
+Proof. intros n bnd cb g ucs s p. exact (gen_adevice_hess n bnd cb g ucs s p). Qed.
+
 
 (* ---- the two instances agree on the reported Hessian (Proofs/HomHess.v): what the correspondence evaluates on exact rationals maps
    through Q2R to the Hessians the theorems above speak about; every atomic kind except the ADevice function AST; integer exponents. ---- *)
